@@ -23,6 +23,8 @@ import (
 	"unicode/utf8"
 
 	"github.com/vektra/mockery/v3/template_funcs"
+	"sync"
+	"sync/atomic"
 )
 
 type app struct {
@@ -44,9 +46,20 @@ var pieces = []string{"", "a", "b", "ab", "abc", "A", "Ab", "aB", "foo", "Foo", 
 	"é", "É", "ß", "ǆ", "ñ", "Ω", "ω", "日本", "😀", "\xff", "\xc3", "a\x00b", "//", "a/b", "/a/b/", "a.b", "x_y", "x-y", "id", "Id", "http", "url",
 	"1", "9x", "%", "$", "${V1}", "$V2", "$$", "\\", "*", "+", "(", ")", "[", "a*", ".*", "^a", "b$", "[a-c]+", "aa", "aaa", "abab"}
 
+var concurrentBad int
+
 func pick(xs []string) string { return xs[rng.Intn(len(xs))] }
 
+// every ASCII letter, digit and the underscore in turn as first character: boundary values of byte-range tests
+var firstChars = "abcdefghijklmnopqrstuvwxyzABCDEFGHIJKLMNOPQRSTUVWXYZ_0189"
+var firstCharNext int
+
 func genStr() (string, string) {
+	if rng.Intn(8) == 0 {
+		c := firstChars[firstCharNext%len(firstChars)]
+		firstCharNext++
+		return string(c) + pick([]string{"one", "", "Z", "zz", "_x", "é"}), "ascii-first-char"
+	}
 	switch rng.Intn(10) {
 	case 0:
 		return "", "empty"
@@ -449,6 +462,30 @@ func main() {
 	if len(template_funcs.FuncMap) == 0 {
 		panic("empty FuncMap")
 	}
+	if mode != "sample" {
+		// first use of the library from many goroutines at once (a fresh process per batch): lazily initialised state in the function
+		// library shows up as a wrong result or as a runtime crash of this process
+		var wg sync.WaitGroup
+		var bad atomic.Int64
+		for g := 0; g < 64; g++ {
+			wg.Add(1)
+			go func(g int) {
+				defer wg.Done()
+				in := initialisms[g%len(initialisms)]
+				for _, c := range []struct{ expr, want string }{
+					{fmt.Sprintf("exported %s", q(strings.ToLower(in))), strconv.Quote(in)},
+					{fmt.Sprintf("firstIsLower %s", q("x")), "true"}, {fmt.Sprintf("snakecase %s", q("FooBar")), strconv.Quote("foo_bar")},
+					{fmt.Sprintf("matchString %s %s", q("^a+$"), q("aaa")), "true"}} {
+					got, err := eval(c.expr, strings.HasPrefix(c.want, "\""))
+					if err != nil || got != c.want {
+						bad.Add(1)
+					}
+				}
+			}(g)
+		}
+		wg.Wait()
+		concurrentBad = int(bad.Load())
+	}
 	type mismatch struct {
 		App    app    `json:"app"`
 		Got    string `json:"got"`
@@ -507,6 +544,9 @@ func main() {
 		if !covered[name] {
 			missing = append(missing, name)
 		}
+	}
+	if concurrentBad > 0 {
+		mism = append(mism, mismatch{App: app{Fn: "concurrent-first-use", Expr: "64 goroutines calling exported/firstIsLower/snakecase/matchString as the first use of the library"}, Got: fmt.Sprintf("%d wrong results", concurrentBad)})
 	}
 	enc.Encode(map[string]any{"applications": count, "mismatches": mism, "per_fn": perFn, "classes": len(perClass), "samples": samples,
 		"funcmap_size": len(template_funcs.FuncMap), "not_covered": missing})
